@@ -117,13 +117,16 @@ Qed.
 
 Lemma Inv6_step : forall s e, Inv6 s -> Inv6 (step s e).
 Proof.
-  intros s e I. destruct e as [i o|i| |k| |]; rewrite step_fixed; cbn [step_].
+  intros s e I. destruct e as [i o|i| |k|kf| |]; rewrite step_fixed; cbn [step_].
   - destruct (up s); [|exact I]. destruct (get_thread i (threads s)) eqn:E; [exact I|].
     unfold Inv6. cbn. rewrite map_app. cbn. apply NoDup_snoc; [exact I|]. apply get_thread_none_iff. exact E.
   - destruct (get_thread i (threads s)) as [[|m rest]|]; try exact I. apply Inv6_exec. exact I.
   - destruct (lock s); [exact I|]. destruct (pending s); exact I.
   - destruct (lock s) as [j|]; [|exact I]. unfold Inv6.
     destruct (persist_step_threads s j k) as [->|(i & rest & _ & _ & -> & _)]; [exact I|apply put_thread_nodup; exact I].
+  - destruct (lock s) as [j|]; [|exact I]. unfold Inv6.
+    destruct (fail_step_fields s j kf) as [->|(_ & _ & _ & _ & _ & _ & _ & _ & _ & [->|(i & rest & _ & _ & ->)])];
+      [exact I|exact I|apply put_thread_nodup; exact I].
   - destruct (up s); [|exact I]. constructor.
   - destruct (up s || broken s); [exact I|]. unfold restart.
     destruct (dat (fs s)) as [c|]; [destruct (complete c); [destruct (load (f_doc c) (next_id s))|]|]; constructor.
@@ -151,7 +154,7 @@ Qed.
 
 Lemma Inv5_step : forall s e, Inv5 s -> Inv5 (step s e).
 Proof.
-  intros s e I. unfold Inv5 in *. destruct e as [i o|i| |k| |]; rewrite step_fixed; cbn [step_].
+  intros s e I. unfold Inv5 in *. destruct e as [i o|i| |k|kf| |]; rewrite step_fixed; cbn [step_].
   - destruct (up s); [|exact I]. destruct (get_thread i (threads s)); exact I.
   - destruct (get_thread i (threads s)) as [[|m rest]|] eqn:Hth; try exact I.
     destruct (exec_live_change true s i m rest) as [_ [E|[(g & n & f & Hf & E)|[(t & E & _ & Hnone & _)|(t & E & _)]]]]; rewrite E.
@@ -169,6 +172,8 @@ Proof.
     + destruct (lookup (j_tmp j) (tmps (fs s))) as [c|]; [|exact I].
       destruct (j_owner j) as [i|]; [|exact I]. cbn.
       destruct (get_thread i (threads s)) as [[|[] rest]|]; exact I.
+  - destruct (lock s) as [j|]; [|exact I].
+    destruct (fail_step_fields s j kf) as [->|(_ & _ & -> & _)]; exact I.
   - destruct (up s); [|exact I]. constructor.
   - destruct (up s || broken s); [exact I|]. unfold restart.
     destruct (dat (fs s)) as [c|]; [|constructor].
@@ -575,7 +580,8 @@ Qed.
    request touches t, it stays so: across any steps, kills and restarts *)
 Definition calm_all (s : st) : Prop := forall j p, In (j, p) (threads s) -> calm t p.
 Definition StableQ (s : st) : Prop := Stable t b s /\ calm_all s.
-Definition ev_quiet (e : ev) : Prop := match e with EStart _ o => touches_op t o = false | _ => True end.
+Definition ev_quiet (e : ev) : Prop :=
+  match e with EStart _ o => touches_op t o = false | EFault _ => False | _ => True end.
 
 Lemma up_of_thread : forall s j p, Inv1 s -> get_thread j (threads s) = Some p -> up s = true.
 Proof.
@@ -586,7 +592,7 @@ Qed.
 Lemma StableQ_step : forall s e, InvB s -> StableQ s -> ev_quiet e -> StableQ (step s e).
 Proof.
   intros s e [I1 I5 I6] HS He.
-  destruct e as [j o|j| |k| |]; rewrite step_fixed; cbn [step_].
+  destruct e as [j o|j| |k|kf| |]; rewrite step_fixed; cbn [step_].
   - (* EStart *)
     destruct (up s) eqn:Hup; [|exact HS].
     destruct (get_thread j (threads s)); [exact HS|].
@@ -631,6 +637,8 @@ Proof.
       * eapply Hc. exact Hin.
       * destruct (in_put_thread _ _ _ _ _ Hin) as [H|(-> & -> & _)]; [eapply Hc; exact H|].
         eapply calm_tail. eapply Hc. apply get_thread_in. exact Hg.
+  - (* EFault: excluded *)
+    destruct He.
   - (* EKill *)
     destruct (up s); [|exact HS]. destruct HS as [[S1 [S2 S3]] Hc].
     split; [split; [exact S1|split; [discriminate|discriminate]]|]. intros j p [].
@@ -659,7 +667,7 @@ Inductive phase (s : st) : Prop :=
 Definition Pre (s : st) : Prop := not_acked s /\ quiet t i s /\ phase s.
 Definition Track (s : st) : Prop := Pre s \/ StableQ s.
 Definition ev_ok (e : ev) : Prop :=
-  match e with EStart j o => j <> i /\ touches_op t o = false | _ => True end.
+  match e with EStart j o => j <> i /\ touches_op t o = false | EFault _ => False | _ => True end.
 
 Lemma exec_acks : forall pad s j m rest,
   acks (exec pad s j m rest) = acks s \/ exists st, m = MAck st /\ acks (exec pad s j m rest) = (j, st) :: acks s.
@@ -788,7 +796,7 @@ Lemma Track_step : forall s e, InvB s -> Track s -> ev_ok e -> Track (step s e).
 Proof.
   intros s e IB [HP|HS] He.
   2:{ right. apply StableQ_step; [exact IB|exact HS|]. destruct e; cbn in *; tauto. }
-  destruct e as [j o|j| |k| |].
+  destruct e as [j o|j| |k|kf| |].
   - (* EStart *)
     left. destruct He as [Hne Ho]. rewrite step_fixed. cbn [step_].
     destruct (up s); [|exact HP]. destruct (get_thread j (threads s)) eqn:Hgj; [exact HP|].
@@ -863,6 +871,8 @@ Proof.
         -- intros m [<-|[]]. reflexivity.
     + left. destruct (Hother _ H) as [A B]; [intros rest; discriminate|].
       split; [unfold not_acked; rewrite Eacks; exact Hna|split; [exact B|apply PhDead; exact A]].
+  - (* EFault: excluded *)
+    destruct He.
   - (* EKill *)
     left. rewrite step_fixed. cbn [step_]. destruct (up s); [|exact HP]. destruct HP as (Hna & Hq & Hph).
     split; [exact Hna|split; [intros k q []|apply PhDead; reflexivity]].
